@@ -202,6 +202,13 @@ U(id="C07.bcj.reader", props=["C07", "C05", "C06", "C11"], file="filter/bcj.rs",
   functions=[("src/filter/bcj.rs", "read", "Read for BCJReader"), ("src/filter/bcj.rs", "new", "BCJReader"), ("src/filter/bcj.rs", "code", "BCJFilter")],
   contract="output = decoder filter applied once to the whole stream, for every split of the reads; unconverted tail emitted only at EOF; after EOF reads return Ok(0); zero-length read is a no-op; internal asserts unreachable")
 
+U(id="C05.bcj.reader.io", props=["C05", "C07"], file="filter/bcj.rs",
+  harnesses=["c05_bcj_reader_interrupted_0", "c05_bcj_reader_interrupted_1", "c05_bcj_reader_interrupted_2"],
+  stubs=ERR + ["copy_error -> kind-preserving copy"],
+  kind="bounded", bound="10-byte source, ARM filter, first read of 3 bytes then 2 more reads (the retry after the error included); one Interrupted at inner call 0, 1 or 2",
+  functions=[("src/filter/bcj.rs", "read", "Read for BCJReader")],
+  contract="with short reads, Interrupted or a failing source: successful reads concatenate to a prefix of the correctly filtered stream; Ok(0) only after the whole stream; the source's error kind is returned and stays returned")
+
 U(id="C07.bcj.writer", props=["C07", "C11"], file="filter/bcj.rs",
   harnesses=["c07_bcj_writer_single", "c07_bcj_writer_two_aligned_writes"],
   known_findings=[{"harness": "kf_c07_bcj_writer_two_writes"}],
